@@ -379,6 +379,13 @@ func (a *AliveDialerSet) NotifyLatencyChange(dialer *Dialer, alive bool) {
 	} else if alive && minPolicy && a.minLatency.dialer == nil {
 		// Use first dialer if no dialer has alive state (usually happen at the very beginning).
 		a.minLatency.dialer = dialer
+		// The group goes from "no alive dialer" to alive here as well (e.g. a
+		// data-UDP node revived by traffic never has a latency sample), so the
+		// owner must hear about it just like in the measured-latency path;
+		// otherwise a connectivity bit cleared earlier stays cleared forever.
+		a.mu.Unlock()
+		a.aliveChangeCallback(true)
+		a.mu.Lock()
 		if a.log.IsLevelEnabled(logrus.InfoLevel) {
 			a.log.WithFields(logrus.Fields{
 				"group":   a.dialerGroupName,
